@@ -20,7 +20,9 @@ type arityRule struct {
 	body func(n int, name string, fi funcInfo) string // "" = skip
 }
 
-func av(n int) string  { return seqN(n, func(i int) string { return fmt.Sprintf("\ta%d := zz.Int(\"a%d\")\n", i, i) }, "") }
+func av(n int) string {
+	return seqN(n, func(i int) string { return fmt.Sprintf("\ta%d := zz.Int(\"a%d\")\n", i, i) }, "")
+}
 func ufN(name string, n int) string {
 	return fmt.Sprintf("\t%s := func(%s int) int { return zz.UFInt(%q, %s) }\n", name, as(n), name, as(n))
 }
